@@ -6103,7 +6103,8 @@ class FlowIRConcrete(object):
             component = self._component_dictionary[comp_id]
 
             # VV: fails here - before the stored component is touched - when new_flowir is not a dictionary
-            replacement = dict(new_flowir)
+            # (a private copy: the caller's definition, or one used for another component, must not be shared)
+            replacement = deep_copy(dict(new_flowir))
 
             component.clear()
             component.update(replacement)
